@@ -72,6 +72,9 @@ static void do_ep(vf_case *c) {
 	long id = mpz_get_si(c->v[1]); cur_cid = -1; cur_cid2 = -1;
 	/* every set is examined on a fresh context (what survives a RE-selection is C19's question) */
 	core_clean(); if (core_init() != RLC_OK) exit(2); vf_reseed();
+	/* second pass (3 arguments): the set is selected AFTER another one of a different kind; what the set advertises (family, embedding
+	 * degree, endomorphism, tables) must not depend on what was selected before */
+	if (c->n > 2 && mpz_sgn(c->v[2]) >= 0) { int th; VF_TRY(th, ep_param_set((int)mpz_get_si(c->v[2]))); if (th) return; }
 	{ int th; VF_TRY(th, ep_param_set((int)id)); if (th) return; }
 	if (!select_curve(id)) { vf_fail(NULL, "ep %ld: generator not on the curve (or selection failed on re-selection)", id); return; }
 	char who[32]; snprintf(who, sizeof who, "ep %ld", id); vf_stat_add("x.sets_selected", 1); vf_stat_add("states", 1);
@@ -216,6 +219,14 @@ static void enumerate(void) {
 			for (long id = 0; id < 256; id++) if (vf_mine()) { K.op = "set"; K.n = 2; mpz_set_si(K.v[0], kind); mpz_set_si(K.v[1], id); vf_run(&K); }
 		}
 		vf_bound_done("all-identifiers");
+	}
+	if (vf_bound_on("curve-sets-after-another-selection")) {
+		/* priors: the first selectable pairing-friendly set, the first endomorphism set that is not pairing-friendly, the first plain set */
+		long prior[3] = {-1, -1, -1};
+		for (long id = 0; id < 256; id++) { core_clean(); if (core_init() != RLC_OK) exit(2); int th; VF_TRY(th, ep_param_set((int)id)); if (th || ep_param_get() != id) continue;
+			int k = ep_curve_is_pairf() ? 0 : ep_curve_is_endom() ? 1 : 2; if (prior[k] < 0) prior[k] = id; }
+		for (int k = 0; k < 3; k++) if (prior[k] >= 0) for (long id = 0; id < 256; id++) if (vf_mine()) { K.op = "set"; K.n = 3; mpz_set_si(K.v[0], 1); mpz_set_si(K.v[1], id); mpz_set_si(K.v[2], prior[k]); vf_run(&K); }
+		vf_bound_done("curve-sets-after-another-selection");
 	}
 	vf_stat_add("transitions", transitions);
 }
